@@ -18,6 +18,7 @@ finite-scope search replaces FSUM by the finite sum and LASTNZ by its definition
 concrete input in real arithmetic.
 """
 import ast
+import itertools
 
 import z3
 
@@ -31,6 +32,39 @@ FSUM_R = z3.Function("FSUM_R", AR, I, Rl)
 LASTNZ_I = z3.Function("LASTNZ_I", AI, I, I)
 LASTNZ_R = z3.Function("LASTNZ_R", AR, I, I)
 UF_LOG = z3.Function("uf_log", Rl, Rl)
+
+
+_FSV = itertools.count()
+
+
+def fresh_idx():
+    """a summation / lambda index that occurs nowhere else (no capture when sums are nested)"""
+    return z3.Int(f"fsv!{next(_FSV)}")
+
+
+def _lam_depth(t, _memo=None):
+    """nesting depth of lambdas / quantifiers inside the term"""
+    if _memo is None:
+        _memo = {}
+    k = t.get_id()
+    if k in _memo:
+        return _memo[k]
+    if z3.is_quantifier(t):
+        d = 1 + _lam_depth(t.body(), _memo)
+    elif z3.is_app(t):
+        d = max([_lam_depth(c, _memo) for c in t.children()], default=0)
+    else:
+        d = 0
+    _memo[k] = d
+    return d
+
+
+def canon_lambda(i, body):
+    """Lambda over the index constant i with a canonical bound name (`fs!<depth>`): two sums built independently - by the
+    code and by the specification - from alpha-equivalent bodies are then the same term, and nested sums never share a
+    bound name (inner sums have a smaller depth)."""
+    c = z3.Int(f"fs!{_lam_depth(body)}")
+    return z3.Lambda([c], z3.substitute(body, (i, c)))
 
 
 class Vec:
@@ -57,7 +91,7 @@ def _real(t, kind):
 
 
 def _lam(vec, as_real=False, masked_zero=True):
-    i = z3.Int("fs!i")
+    i = fresh_idx()
     body = vec.f(i)
     if vec.kind == "bool":
         body = z3.If(body, z3.IntVal(1), z3.IntVal(0)) if z3.is_bool(body) else body
@@ -65,7 +99,7 @@ def _lam(vec, as_real=False, masked_zero=True):
         body = z3.ToReal(body)
     if vec.present is not None and masked_zero:
         body = z3.If(vec.present(i), body, z3.RealVal(0) if (as_real or vec.kind == "float") else z3.IntVal(0))
-    return z3.Lambda([i], body)
+    return canon_lambda(i, body)
 
 
 def _canon(t):
@@ -123,7 +157,7 @@ def mk_fsum(body, i, n, is_real, ex=None):
     n1 = _canon(simp_under(ctx2, n0))
     b1 = _canon(simp_under(ctx2 + [i >= 0, i < n1], _canon(body)))
     zero = z3.RealVal(0) if is_real else z3.IntVal(0)
-    return z3.If(_canon(n1 > 0) if False else n0 > 0, (FSUM_R if is_real else FSUM_I)(z3.Lambda([i], b1), n1), zero)
+    return z3.If(n0 > 0, (FSUM_R if is_real else FSUM_I)(canon_lambda(i, b1), n1), zero)
 
 
 def _qfree(f):
@@ -134,7 +168,7 @@ def _qfree(f):
 
 
 def vsum(ex, vec):
-    i = z3.Int("fs!i")
+    i = fresh_idx()
     lam = _lam(vec)
     body = z3.Select(lam, i)
     if vec.kind == "float":
@@ -223,7 +257,7 @@ def vbinop(ex, op, a, b, node):
         kind = "float" if "float" in (vec.kind, mk) else "int"
 
         def elem(j, vec=vec, mat=mat, vec_left=vec_left, mk=mk, kind=kind):
-            i = z3.Int("fs!i")
+            i = fresh_idx()
             m = ex.select(mat, [i, j] if vec_left else [j, i])
             x, y = (vec.f(i), m) if vec_left else (m, vec.f(i))
             xk, yk = (vec.kind, mk) if vec_left else (mk, vec.kind)
@@ -234,7 +268,7 @@ def vbinop(ex, op, a, b, node):
         if va is None or vb is None or va.present is not None or vb.present is not None:
             raise Undecidable("@ on non-vectors")
         ex.oblige("shape", f"{symex.src_of(node)}: operands of @ have equal length", va.n == vb.n, node)
-        i = z3.Int("fs!i")
+        i = fresh_idx()
         body, kind = _elem_arith(ex, ast.Mult(), va.f(i), va.kind, vb.f(i), vb.kind, node)
         if kind == "float":
             return Val("float", mk_fsum(body, i, va.n, True, ex), PYFLOAT)
@@ -379,11 +413,27 @@ def _ev_call(self, n):
                 isf = mat.elem is not None and mat.elem.kind == "float"
 
                 def elem(j, mat=mat, ax=ax, isf=isf):
-                    i = z3.Int("fs!i")
+                    i = fresh_idx()
                     return mk_fsum(self.select(mat, [i, j] if ax == 0 else [j, i]), i, mat.shape[ax], isf, self)
                 return Val("vec", Vec(mat.shape[1 - ax], elem, "float" if isf else "int"))
         if fn in ("np.dot", "numpy.dot") and len(n.args) == 2:
             return vbinop(self, ast.MatMult(), self.ev(n.args[0]), self.ev(n.args[1]), n)
+        if fn in ("np.diag", "numpy.diag") and len(n.args) in (1, 2) and not n.keywords:
+            # np.diag(M, k) of a 2-d array: the k-th diagonal as a vector (k >= 0: M[i, i+k]; k < 0: M[i-k, i])
+            v = self.ev(n.args[0])
+            if v.k == "arr" and v.t.ndim == 2:
+                mat = v.t
+                kk = self.to_int(self.ev(n.args[1])) if len(n.args) == 2 else z3.IntVal(0)
+                n0, n1 = mat.shape
+
+                def mn(a, b):
+                    return z3.If(a <= b, a, b)
+                ln = z3.If(kk >= 0, mn(n0, n1 - kk), mn(n0 + kk, n1))
+                ln = z3.simplify(z3.If(ln > 0, ln, 0))
+                isf = mat.elem is not None and mat.elem.kind == "float"
+                return Val("vec", Vec(ln, lambda i, mat=mat, kk=kk: z3.If(kk >= 0, self.select(mat, [i, i + kk]),
+                                                                           self.select(mat, [i - kk, i])),
+                                      "float" if isf else "int"))
         if fn in ("np.nonzero", "numpy.nonzero") and len(n.args) == 1:
             v = self.ev(n.args[0])
             vec = as_vec(self, v)
@@ -404,6 +454,14 @@ def _ev_call(self, n):
                     return self.method_call(recv, "transpose", n)
                 if n.func.attr == "sum" and not n.args and (recv.k == "vec" or (recv.k == "arr" and recv.t.ndim == 1)):
                     return vsum(self, as_vec(self, recv))
+                if n.func.attr == "sum" and not n.args and not n.keywords and recv.k == "arr" and recv.t.ndim == 2:
+                    # M.sum(): the sum over all entries, row by row:  FSUM(lambda i. FSUM(lambda j. M[i, j], n1), n0)
+                    mat = recv.t
+                    isf = mat.elem is not None and mat.elem.kind == "float"
+                    i_, j_ = fresh_idx(), fresh_idx()
+                    inner = mk_fsum(self.select(mat, [i_, j_]), j_, mat.shape[1], isf, self)
+                    tot = mk_fsum(inner, i_, mat.shape[0], isf, self)
+                    return Val("float", tot, PYFLOAT) if isf else Val("int", tot, PYINT)
                 if n.func.attr == "dot" and len(n.args) == 1 and not n.keywords and \
                         (recv.k == "vec" or (recv.k == "arr" and recv.t.ndim in (1, 2))):
                     return vbinop(self, ast.MatMult(), recv, self.ev(n.args[0]), n)
@@ -538,7 +596,7 @@ def _spec_call(self, fn, n):
         if not isinstance(lam, ast.Lambda) or len(lam.args.args) != 1:
             raise Undecidable("fsum needs a one-argument lambda")
         nn = self.to_int(self.ev(cnt))
-        i = z3.Int("fs!i")
+        i = fresh_idx()
         saved = dict(self.bound_vars)
         self.bound_vars[lam.args.args[0].arg] = Val("int", i, PYINT)
         try:
@@ -551,7 +609,7 @@ def _spec_call(self, fn, n):
     if fn == "lastnz":
         lam, cnt = n.args
         nn = self.to_int(self.ev(cnt))
-        i = z3.Int("fs!i")
+        i = fresh_idx()
         saved = dict(self.bound_vars)
         self.bound_vars[lam.args.args[0].arg] = Val("int", i, PYINT)
         try:
